@@ -65,6 +65,11 @@ LEVEL_TEXT += (
     "translation (skv/invariance.py); no assert on input data in "
     "refinement routines; the marked set is converted to integers "
     "before np.unique.")
+LEVEL_TEXT += (
+    " Added in the third round (review of the fix commits, DESIGN.md "
+    "9.6): "
+    "a reduction of the marked set is accepted only under a test that "
+    "it was given as a Boolean mask.")
 LEVEL_NOTE = ("Trusted: numpy hstack/vstack/arange/reshape. The reference "
               "facet is the one opposite... precisely: local facet 2 = "
               "vertices (0, 2), read from RefTri.facets.")
